@@ -594,6 +594,12 @@ def main():
     else:
         rng = random.Random(seed * 1000003 + int(prop[1:]))
         cases = load_corpus(prop) + spec["gen"](rng, tier)
+    # internal-state tie: on moderately sized cases also compare the complete serialized state
+    # (bincode bytes of the real value) with the model's own state encoded by the generated schema
+    if spec.get("state_tie", True) and not replay_mode:
+        for c in cases:
+            if c.model and (c.tags.get("n") or 0) <= 3000 and c.lines and c.lines[-1] != "SER" and any(l.startswith("NEW") for l in c.lines):
+                c.lines.append("SER")
     outs = run_cases(prop, cases, profiles, binaries, model_bin, wdir)
     findings, n_eval, n_model = evaluate(prop, cases, outs, profiles)
     if spec.get("post"):
